@@ -9,7 +9,8 @@ use pairing_plus::map_to_curve::MapToCurve;
 use proptest::prelude::*;
 use refmodel::curve::{e1_iso, e2_iso};
 use refmodel::enc::in_subgroup;
-use refmodel::fld::{Fld, Fq, Fq2};
+use refmodel::fld::{Fld, Fq, Fq2, SqrtFld, Z};
+use std::sync::OnceLock;
 use refmodel::h2c;
 use serde::{Deserialize, Serialize};
 
@@ -21,6 +22,10 @@ pub enum URecipe {
     MinusOne,
     /// G1 only: +-sqrt(-1/11), the non-zero SSWU-exceptional inputs
     Exceptional(bool),
+    /// an input constructed by inverting the SSWU map on a point of the isogenous curve that is special for
+    /// a LATER stage of the pipeline: a rational kernel point of the 11-isogeny (G1), a point of small order,
+    /// a pure cofactor point [r]R (all mapped to the identity by the composition), a point of order r
+    StagePreimage(u16),
 }
 
 #[derive(Clone, Debug, Serialize, Deserialize, PartialEq, Eq, Hash)]
@@ -48,8 +53,81 @@ fn u_strategy() -> BoxedStrategy<URecipe> {
         1 => Just(URecipe::One),
         1 => Just(URecipe::MinusOne),
         2 => any::<bool>().prop_map(URecipe::Exceptional),
+        3 => any::<u16>().prop_map(URecipe::StagePreimage),
     ]
     .boxed()
+}
+
+/// (class, u) pairs: SSWU preimages of points of E' that are special for the isogeny / cofactor-clearing stages
+pub struct StagePool<F> {
+    pub items: Vec<(&'static str, F)>,
+}
+
+fn build_stage_pool<G: super::c16::IsoGrp>(zc: &G::F) -> StagePool<G::F>
+where
+    G::F: SqrtFld,
+{
+    use refmodel::curve::Pt;
+    let curve = G::iso_curve();
+    let pool = G::iso_pool();
+    let n = G::order();
+    let rr = refmodel::consts::r();
+    let mut cands: Vec<(&'static str, Pt<G::F>)> = vec![];
+    for s in &pool.order121 {
+        let k = curve.mul(&Z::from(11u32), s);
+        let mut acc = k.clone();
+        for _ in 0..10 {
+            cands.push(("isogeny-kernel-point", acc.clone()));
+            acc = curve.add(&acc, &k);
+        }
+    }
+    for v in &pool.small_order {
+        for p in v {
+            let mut acc = p.clone();
+            for _ in 0..4 {
+                if !acc.is_inf() {
+                    cands.push(("small-order-point", acc.clone()));
+                    cands.push(("small-order-point", curve.neg(&acc)));
+                }
+                acc = curve.add(&acc, p);
+            }
+        }
+    }
+    let h = &n / rr;
+    for f in &pool.full {
+        let c = curve.mul(&rr, f);
+        cands.push(("pure-cofactor-point", c.clone()));
+        cands.push(("pure-cofactor-point", curve.neg(&c)));
+        cands.push(("order-r-point-of-isogenous-curve", curve.mul(&h, f)));
+    }
+    let mut items = vec![];
+    for (cl, p) in cands {
+        for u in h2c::sswu_preimages_of_point(&curve, zc, &p) {
+            items.push((cl, u));
+        }
+    }
+    StagePool { items }
+}
+
+static SPOOL1: OnceLock<StagePool<Fq>> = OnceLock::new();
+static SPOOL2: OnceLock<StagePool<Fq2>> = OnceLock::new();
+
+pub fn stage_pool_g1() -> &'static StagePool<Fq> {
+    SPOOL1.get_or_init(|| build_stage_pool::<G1m>(&h2c::z1()))
+}
+pub fn stage_pool_g2() -> &'static StagePool<Fq2> {
+    SPOOL2.get_or_init(|| build_stage_pool::<G2m>(&h2c::z2()))
+}
+
+fn pick<T>(v: &[T], i: u16) -> &T {
+    &v[(i as usize * v.len()) >> 16]
+}
+
+fn stage_class(group: u8, u: &URecipe) -> Option<&'static str> {
+    match u {
+        URecipe::StagePreimage(i) => Some(if group == 0 { pick(&stage_pool_g1().items, *i).0 } else { pick(&stage_pool_g2().items, *i).0 }),
+        _ => None,
+    }
 }
 
 fn map_case_strategy(group: u8) -> BoxedStrategy<MapCase> {
@@ -73,6 +151,7 @@ pub fn u_g1(u: &URecipe) -> Fq {
             let (a, b) = h2c::g1_exceptional_roots();
             if *s { a } else { b }
         }
+        URecipe::StagePreimage(i) => pick(&stage_pool_g1().items, *i).1.clone(),
     }
 }
 
@@ -87,10 +166,21 @@ pub fn u_g2(u: &URecipe) -> Fq2 {
             let (a, b) = h2c::g1_exceptional_roots();
             Fq2::new(if *s { a } else { b }, Fq::zero())
         }
+        URecipe::StagePreimage(i) => pick(&stage_pool_g2().items, *i).1.clone(),
     }
 }
 
 fn check_map(c: &MapCase, info: &mut Info) -> Result<(), String> {
+    if let Some(cl) = stage_class(c.group, &c.u0) {
+        info.class(format!("u0-sswu-preimage-of:{}", cl));
+        info.nt();
+    }
+    if let Second::Independent(u) = &c.second {
+        if let Some(cl) = stage_class(c.group, u) {
+            info.class(format!("u1-sswu-preimage-of:{}", cl));
+            info.nt();
+        }
+    }
     if c.group == 0 {
         let u0 = u_g1(&c.u0);
         if h2c::sswu_is_exceptional(&h2c::z1(), &u0) {
@@ -238,7 +328,7 @@ fn check_seq(c: &SeqCase, info: &mut Info) -> Result<(), String> {
 pub fn def() -> PropDef {
     PropDef {
         id: "C14",
-        rule: "u from the field-element generator plus 0, +-1 and (G1) the SSWU-exceptional roots +-sqrt(-1/11); pairs (u0, u1): independent, u1 = u0, u1 = -u0, and partners constructed by the model (solving two quadratics for Z u'^2) with u1 not in {+-u0} and sswu(u1) = sswu(u0) resp. = -sswu(u0). Oracle: model clear_cofactor(iso(sswu(u))) and clear_cofactor(iso(sswu(u0)) + iso(sswu(u1))) with + the model law on the target curve; model subgroup test; no panic. Non-trivial = pair with coinciding or inverse SSWU images; distinct = distinct cases",
+        rule: "u from the field-element generator plus 0, +-1, (G1) the SSWU-exceptional roots +-sqrt(-1/11), and inputs constructed by inverting the SSWU map on points of E' that are special for the later stages (rational kernel points of the 11-isogeny, small-order points, pure cofactor points [r]R - the composition sends all of them to the identity - and order-r points); pairs (u0, u1): independent, u1 = u0, u1 = -u0, and partners constructed by the model (solving two quadratics for Z u'^2) with u1 not in {+-u0} and sswu(u1) = sswu(u0) resp. = -sswu(u0). Oracle: model clear_cofactor(iso(sswu(u))) and clear_cofactor(iso(sswu(u0)) + iso(sswu(u1))) with + the model law on the target curve; model subgroup test; no panic. Non-trivial = pair with coinciding or inverse SSWU images, or an input that is a constructed SSWU preimage of a stage-special point; distinct = distinct cases",
         needs_pairing: false,
         subs: vec![
             Box::new(Sub { name: "g1", rule: "G1 map_to_curve and map2_to_curve vs model composition", quick: 3_750, thorough: 50_000, strategy: || boxed(map_case_strategy(0)), check: check_map }),
